@@ -383,7 +383,7 @@ func c01SharedMaps(c *Ctx, svcs []Service, reach map[*ssa.Function]bool) {
 			continue
 		}
 		for i, a := range accs {
-			locked := false
+			locked, sharedOnly := false, false
 			for _, call := range Calls(a.fn) {
 				f := call.Common().StaticCallee()
 				if f == nil || !(f.Name() == "Lock" || f.Name() == "RLock") || !(RecvTypeName(f) == "Mutex" || RecvTypeName(f) == "RWMutex") || PkgOf(f) != "sync" {
@@ -392,30 +392,44 @@ func c01SharedMaps(c *Ctx, svcs []Service, reach map[*ssa.Function]bool) {
 				if _, isDefer := call.(*ssa.Defer); isDefer {
 					continue
 				}
-				if !call.Block().Dominates(a.in.Block()) {
+				if !call.Block().Dominates(a.in.Block()) || (call.Block() == a.in.Block() && instrIdx(call) > instrIdx(a.in)) {
 					continue
 				}
 				// the mutex belongs to the same object (or is a package-level mutex)
+				held := false
 				mu := call.Common().Args[0]
 				if fa, ok := mu.(*ssa.FieldAddr); ok {
 					if Render(fa.X) == Render(a.base) {
-						locked = true
+						held = true
 					}
 				} else if _, ok := mu.(*ssa.Global); ok {
-					locked = true
+					held = true
+				}
+				if !held {
+					continue
 				}
 				// not unlocked again before the access (an Unlock call that dominates the access and is dominated by the Lock)
-				if locked {
-					for _, c2 := range Calls(a.fn) {
-						f2 := c2.Common().StaticCallee()
-						if _, isDefer := c2.(*ssa.Defer); isDefer || f2 == nil || !(f2.Name() == "Unlock" || f2.Name() == "RUnlock") {
-							continue
-						}
-						if call.Block().Dominates(c2.Block()) && c2.Block().Dominates(a.in.Block()) && !(c2.Block() == a.in.Block() && instrIdx(c2) > instrIdx(a.in)) && !(c2.Block() == call.Block() && instrIdx(c2) < instrIdx(call)) {
-							locked = false
-						}
+				for _, c2 := range Calls(a.fn) {
+					f2 := c2.Common().StaticCallee()
+					if _, isDefer := c2.(*ssa.Defer); isDefer || f2 == nil || !(f2.Name() == "Unlock" || f2.Name() == "RUnlock") {
+						continue
+					}
+					if call.Block().Dominates(c2.Block()) && c2.Block().Dominates(a.in.Block()) && !(c2.Block() == a.in.Block() && instrIdx(c2) > instrIdx(a.in)) && !(c2.Block() == call.Block() && instrIdx(c2) < instrIdx(call)) {
+						held = false
 					}
 				}
+				if !held {
+					continue
+				}
+				if f.Name() == "RLock" && a.write {
+					sharedOnly = true // a read lock does not exclude the other holders of the read lock
+					continue
+				}
+				locked = true
+			}
+			if !locked && sharedOnly {
+				c.Violate("shared-map-locked", fmt.Sprintf("%s write[%d] in %s", k, i, shortFn(a.fn)), p.InstrPos(a.in), "a map stored in the shared service object is written (insert/delete) while only the read lock (RLock) is held: read locks do not exclude each other, so two connections at once cause `fatal error: concurrent map writes`, which no recover can catch")
+				continue
 			}
 			kind := "read"
 			if a.write {
